@@ -256,9 +256,13 @@ def configs(pid, tr):
         a3o = alphabet(3, [1], [2, 3], ["a", "b"], ack_from=[9], ack_about=[1]) + alphabet(3, [9], [2, 3], ["a"], ack_from=[])
         res.append((dict(name="n3out", N=3, Byz=[1], Outsiders=[9], Contents=["a", "b"], AdvSet=a3o, MaxInject=4, MaxCopies=1, Deliveries=False,
                          mode="sign"), "sets", {}))
+        res.append((dict(name="n3outk", N=3, Byz=[1], Outsiders=[9], Contents=["a", "b"], AdvSet=a3o, MaxInject=4, MaxCopies=1, Deliveries=False),
+                    "sets", {}))
         a3d = alphabet(3, [1], [2, 3], ["a", "b"], ack_about=[1, 2])
         res.append((dict(name="n3dup", N=3, Byz=[1], Contents=["a", "b"], HonestB=[(2, 1, "a")], AdvSet=a3d, MaxInject=3, MaxCopies=2,
                          Deliveries=False), "sets", {}))
+        a3m = alphabet(3, [1], [2, 3], ["a", "b"], ack_from=[])
+        res.append((dict(name="n3dup4", N=3, Byz=[1], Contents=["a", "b"], AdvSet=a3m, MaxInject=4, MaxCopies=2, Deliveries=False), "sets", {}))
         a3e = alphabet(3, [1], [2, 3], ["a", "b"])
         res.append((dict(name="n3edges", N=3, Byz=[1], Contents=["a", "b"], HonestB=[(2, 1, "a")], AdvSet=a3e, MaxInject=2), "edges", {}))
         a4 = alphabet(4, [1], [2, 3, 4], ["a", "b"])
@@ -268,6 +272,9 @@ def configs(pid, tr):
             res.append((dict(name="n4b2", N=4, Byz=[1, 2], Contents=["a", "b"], HonestB=[(3, 1, "a")], AdvSet=a42, MaxInject=5),
                         "exhaustive+simulate", dict(num=2000, depth=30)))
             res.append((dict(name="n4b2sets", N=4, Byz=[1, 2], Contents=["a", "b"], AdvSet=a42, MaxInject=4, MaxCopies=1, Deliveries=False),
+                        "sets", dict(cap=60000)))
+            a42d = alphabet(4, [1, 2], [3, 4], ["a", "b"], msg_from=[1], ack_about=[1])
+            res.append((dict(name="n4b2dup", N=4, Byz=[1, 2], Contents=["a", "b"], AdvSet=a42d, MaxInject=6, MaxCopies=2, Deliveries=False),
                         "sets", dict(cap=60000)))
             a3r = alphabet(3, [1], [2, 3], ["a", "b"], rounds=(1, 2), mismatch=True)
             res.append((dict(name="n3r2", N=3, Byz=[1], Rounds=[1, 2], Contents=["a", "b"], HonestB=[(2, 1, "a")], HonestP=[(2, 3, 1, "a")],
@@ -280,6 +287,13 @@ def configs(pid, tr):
         res.append((dict(name="h3", N=3, HonestB=[(1, 1, "a"), (2, 1, "a")], HonestP=[(1, 2, 1, "a")]), "edges", {}))
         res.append((dict(name="h3s", N=3, Rounds=[1, 2], HonestB=[(1, 1, "a"), (1, 2, "a"), (2, 1, "a")], HonestP=[(3, 1, 2, "a")],
                          mode="sign"), "simulate", dict(num=200, depth=60)))
+        # the same sessions with sparse / large node identifiers (values that collide modulo 64, 256; both bytes used)
+        idsets = [[3, 67, 131], [256, 512, 1], [65535, 255, 511], [300, 44, 45]]
+        rng = random.Random(vlib.seed())
+        idsets.append(sorted(rng.sample(range(0, 65536), 3)))
+        for k, ids in enumerate(idsets):
+            res.append((dict(name="h3id%d" % k, N=3, Rounds=[1, 2], HonestB=[(1, 1, "a"), (2, 1, "a"), (3, 2, "a")], HonestP=[(3, 1, 2, "a")],
+                             ids={"1": ids[0], "2": ids[1], "3": ids[2]}, mode="sign" if k % 2 else "keygen"), "simulate", dict(num=40, depth=60)))
         res.append((dict(name="h4", N=4, Rounds=[1, 2], HonestB=[(1, 1, "a"), (2, 1, "a"), (1, 2, "a")], HonestP=[(3, 1, 1, "a")]),
                     "simulate", dict(num=200, depth=80)))
         if tr == "thorough":
@@ -294,10 +308,10 @@ def one_per_set(paths):
     """one behaviour per distinct set of events (sets mode explores orders only as far as the VIEW distinguishes them)"""
     seen = {}
     for p in paths:
-        k = frozenset(json.dumps(e, sort_keys=True) for e in p)
-        if k not in seen or len(p) < len(seen[k]):
+        k = tuple(sorted(json.dumps(e, sort_keys=True) for e in p))     # multiset of events
+        if k not in seen:
             seen[k] = p
-    return [seen[k] for k in sorted(seen, key=lambda k: sorted(k))]
+    return [seen[k] for k in sorted(seen)]
 
 
 def set_variants(paths):
